@@ -10,8 +10,8 @@ from pathlib import Path
 from typing import Any
 
 VERIF = Path(__file__).resolve().parent.parent
-OUT = VERIF / "out"
-EVIDENCE = VERIF / "evidence"
+OUT = Path(os.environ.get("VERIF_OUT") or (VERIF / "out"))
+EVIDENCE = Path(os.environ.get("VERIF_EVIDENCE") or (VERIF / "evidence"))
 KNOWN = VERIF / "known_findings.json"
 
 
